@@ -432,6 +432,12 @@ def get_model_parser(top_rule, comments_model, **kwargs):
             # (none until the text is parsed successfully).
             self._user_classes_replaced = []
 
+            # Used to keep track of user class instances: all allocated
+            # ones (they own a slot in `_tx_obj_attrs` of their class)
+            # and the completed ones in the order of initialization.
+            self._user_class_alloc = []
+            self._user_class_inst = []
+
             try:
                 if debug is not None:
                     self.debug = debug
@@ -440,9 +446,6 @@ def get_model_parser(top_rule, comments_model, **kwargs):
                     self.dprint("*** PARSING MODEL ***")
 
                 self.parse(model_str, file_name=file_name)
-
-                # Used to keep track of user class instances
-                self._user_class_inst = []
 
                 self._replace_user_attr_methods()
 
@@ -460,6 +463,9 @@ def get_model_parser(top_rule, comments_model, **kwargs):
             except:  # noqa
                 # Restore of user classes replaced attr methods
                 self._restore_user_attr_methods()
+                # and drop the attributes collected for the objects that
+                # will never be initialized
+                self._discard_user_obj_attrs()
                 raise
 
             finally:
@@ -553,6 +559,15 @@ def get_model_parser(top_rule, comments_model, **kwargs):
                                 else:
                                     delattr(user_class, real_name)
                                 delattr(user_class, cached_name)
+
+        def _discard_user_obj_attrs(self):
+            """
+            Remove the attributes collected in `_tx_obj_attrs` of the
+            user classes for the objects allocated by this parser (used
+            when the loading fails, the objects are never initialized).
+            """
+            for obj in self._user_class_alloc:
+                obj.__class__._tx_obj_attrs.pop(id(obj), None)
 
     return TextXModelParser(**kwargs)
 
@@ -673,6 +688,7 @@ def parse_tree_to_objgraph(
                 # So that nested object get correct reference
                 inst = user_class.__new__(user_class)
                 user_class._tx_obj_attrs[id(inst)] = {}
+                parser._user_class_alloc.append(inst)
                 is_user = True
 
             else:
@@ -1147,11 +1163,14 @@ def _abort_user_class_construction(parsers):
     """
     Loading failed: the models of the given parsers will never reach
     (or complete) `_end_model_construction`, so the replacement of the
-    user classes attr methods done by the parsers is undone here.
+    user classes attr methods done by the parsers is undone here and the
+    attributes collected for the never to be initialized objects are
+    dropped.
     """
     for the_parser in parsers:
         if the_parser is not None:
             the_parser._restore_user_attr_methods()
+            the_parser._discard_user_obj_attrs()
 
 
 class ReferenceResolver:
